@@ -19,7 +19,9 @@ Local Open Scope nat_scope.
    occurs for a table built by InitNodeContextHierarchy from a validated config: the table is numbered in
    preorder (node, handler, children: feeders before the nodes they feed), every entry is a root source
    child or was reached from one, and config validation enforces buffersize >= 1.
-   The counterexamples at the end of ExecProgress2.v show that each hypothesis is needed. *)
+   [topo] and [fed] are PROVED for every output of Model/Settle.flatten in ExecProgressFlat.v
+   ([flatten_topo], [flatten_fed]).  The counterexamples at the end of ExecProgress2.v show that
+   [good_net] alone is not enough: [fed], acyclicity (here: [topo]) and [buffered] are each needed. *)
 Definition topo (nt : net) : Prop :=
   forall n c, n < length nt -> In c (targets (info nt n)) -> n < c.
 Definition fed (nt : net) : Prop :=
